@@ -42,6 +42,8 @@ static int g_fault_partial = 0;    /* a failing write first writes half of the b
 static long g_fault_count = 0;     /* faultable calls seen so far */
 static long g_fault_fired = 0;
 static char g_fault_kinds[64] = "";
+static long g_kind_count[10];
+static const char *g_kind_names[10] = { "open", "write", "sync", "rename", "unlink", "close", "mkdir", "link", "read", "mmap" };
 static __thread int t_nofault = 0;   /* set while the harness itself reads files (table dumps) *//* comma list of call kinds to consider ("" = all): open,write,sync,rename,unlink,close,mkdir,link,read,mmap */
 
 static const char *jrel(const char *p) {
@@ -84,6 +86,8 @@ static int kind_enabled(const char *k) {
 static int fault_check(const char *kind, const char *rel) {
   long k;
   if (!g_journal || rel == NULL || t_nofault) return 0;
+  if (!strcmp(rel, "LOG") || !strcmp(rel, "LOG.old")) return 0;
+  { int i; for (i = 0; i < 10; i++) if (!strcmp(kind, g_kind_names[i])) { __sync_fetch_and_add(&g_kind_count[i], 1); break; } }
   if (!kind_enabled(kind)) return 0;
   /* the info log is not part of the database's data path */
   if (!strcmp(rel, "LOG") || !strcmp(rel, "LOG.old")) return 0;
